@@ -56,10 +56,14 @@ def sig_key(v):
 
 
 def replay_file(prop, path, quiet=False):
-    engine = worker.load_engine(prop)
     with open(path) as f:
         rp = json.load(f)
-    res = worker.execute_guarded(engine, rp['plan'], keep_events=True)
+    plans = list(rp.get('prelude', [])) + [rp['plan']]
+    try:
+        res = worker.execute_sequence(prop, plans, 600, keep_events=True)[-1]
+    except BaseException as e:
+        log(f'HARNESS-ERROR in replay: {type(e).__name__}: {e}')
+        return 2
     if res.get('harness_error'):
         log('HARNESS-ERROR in replay:\n' + res['harness_error'])
         return 2
@@ -228,31 +232,52 @@ def main(argv=None):
         plan = engine.generate(srng.run_seed(verif_seed, prop, tier, idx), idx, tier)
         v0 = r0['violation']
         tests = 0
-        if not a.no_shrink:
-            def fails(p, _key=key):
-                rr = worker.execute_guarded(engine, p)
-                vv = rr.get('violation')
-                return (vv is not None) and sig_key(vv) == _key and not rr.get('harness_error')
-            if fails(plan):
-                plan, tests = sshrink.shrink(plan, fails, getattr(engine, 'simplify', None), max_tests=b.get('shrink_tests', 400))
-            else:
-                log(f'HARNESS-ERROR run {idx} violated {key} in the worker but not when re-executed in the driver (nondeterminism)')
+        prelude = []
+        tmo = b['per_run_timeout_s']
+
+        def last(plans):
+            rr = worker.execute_sequence(prop, plans, tmo)[-1]
+            return rr
+
+        def fails_seq(plans, _key=key):
+            rr = last(plans)
+            vv = rr.get('violation')
+            return (vv is not None) and sig_key(vv) == _key and not rr.get('harness_error')
+        if not fails_seq([plan]):
+            # not reproducible from the pristine state by itself: the violation depends on what earlier runs of the same
+            # chunk left behind in the process (hidden state the per-run reset does not own) -> replay the whole history
+            prelude = [engine.generate(srng.run_seed(verif_seed, prop, tier, j), j, tier) for j in r0.get('chunk_prefix', [])]
+            if not prelude or not fails_seq(prelude + [plan]):
+                log(f'HARNESS-ERROR run {idx} violated {key} in the worker but not when its chunk history is re-executed from a pristine process (nondeterminism)')
                 return 2
-        rr = worker.execute_guarded(engine, plan)
+            log(f'note: violation {key} of run {idx} needs state left behind by earlier runs of the same process; minimising the multi-run history ({len(prelude)} earlier runs)')
+            if not a.no_shrink:
+                holder = {'ops': prelude}
+                small, t = sshrink.ddmin_ops(holder, lambda h: fails_seq(list(h['ops']) + [plan]), max_tests=60)
+                prelude = list(small['ops']) if fails_seq(list(small['ops']) + [plan]) else prelude
+                tests += t
+        if not a.no_shrink:
+            plan, t = sshrink.shrink(plan, lambda p: fails_seq(prelude + [p]), getattr(engine, 'simplify', None), max_tests=b.get('shrink_tests', 400))
+            tests += t
+            if len(prelude) == 1:
+                pl, t = sshrink.shrink(prelude[0], lambda p: fails_seq([p, plan]), getattr(engine, 'simplify', None), max_tests=100)
+                prelude = [pl]
+                tests += t
+        rr = last(prelude + [plan])
         vmin = rr.get('violation') or v0
         path = os.path.join(VERIF, 'replays', f'{prop}-s{verif_seed}-{tier}-r{idx}-{key[0]}-{_slug(key[1])}.json')
         with open(path, 'w') as f:
             json.dump({'property': prop, 'verif_seed': verif_seed, 'tier': tier, 'run_index': idx,
                        'expected': signature(vmin), 'detail': vmin.get('detail'), 'op_index': vmin.get('op_index'),
                        'trace_digest': rr.get('digest'), 'shrink_tests': tests, 'runs_with_this_signature': len(rs),
-                       'plan': plan}, f, indent=1, default=str)
+                       'prelude': prelude, 'plan': plan}, f, indent=1, default=str)
         # replay in a fresh interpreter must reproduce it exactly
         cp = subprocess.run([os.path.join(VERIF, 'check'), prop, '--replay', path], capture_output=True, text=True, timeout=600)
         reproduced = (cp.returncode == 1) and (f'VIOLATION property={prop}' in cp.stdout) and \
                      (f'trace_digest={rr.get("digest")} ' in cp.stdout)
         sig = signature(vmin)
         k = match_known(known, sig)
-        nops = len(plan.get('ops', []))
+        nops = len(plan.get('ops', [])) + sum(len(p.get('ops', [])) for p in prelude)
         if not reproduced:
             log(f'HARNESS-ERROR replay of {path} in a fresh interpreter did not reproduce the violation exactly:\n{cp.stdout[-2000:]}\n{cp.stderr[-2000:]}')
             return 2
